@@ -91,6 +91,9 @@ def check_scenario(case, out):
             last_sim = (st, res)
             prev = snap
             continue
+        if st.get('_foreign_withdraw_hook'):
+            v.append(('C04', 'withdraw hook sent by %s, which is not the LP token, was accepted' % st['contract'], k))
+            v.append(('C14', 'withdraw hook sent by %s, which is not the LP token, was accepted' % st['contract'], k))
         # ---- conservation / third parties (C07) ----
         if op in ('swap', 'provide', 'withdraw', 'router_swap'):
             for key in all_keys:
@@ -282,6 +285,10 @@ def gen_scenario(rng):
     steps = case['steps']
     if rng.random() < 0.15:
         steps.append(dict(op='provide', pair=0, sender=rng.choice(['bob', 'mallory']), amounts=[str(r0), str(r1)]))
+    if rng.random() < 0.12:
+        # dust (or more) of one or both assets sits in the pair before the first provision
+        for idx in rng.choice([[0], [1], [0, 1], [0, 1]]):
+            steps.append(dict(op='donate', pair=0, sender='mallory', idx=idx, amount=str(rng.choice([1, 2, 1000, 10 ** 9]))))
     steps.append(dict(op='provide', pair=0, sender='alice', amounts=[str(r0), str(r1)]))
     shape = rng.random()
     if shape < 0.12:
@@ -316,7 +323,11 @@ def gen_scenario(rng):
                 if is_native:
                     ch = rng.randrange(7)
                     key = assets[oi]['native']
-                    if ch == 5:
+                    if ch == 5 and rng.random() < 0.5:
+                        # offers an honestly attached native denom that is NOT an asset of the pair
+                        st['named'] = {'native': 'ujunk'}
+                        st['funds'] = {'ujunk': str(amt)}
+                    elif ch == 5:
                         st['named_amount'] = '0'            # declares nothing, attaches amt
                     elif ch == 6:
                         st['named_amount'] = str(amt + rng.choice([1, amt]))   # declares more than attached (coin present, smaller)
@@ -395,6 +406,15 @@ def gen_scenario(rng):
         elif c < 0.9:
             frac = rng.choice([1e-6, 0.001, 0.1, 0.618, 0.9])
             amt = max(1, int(sup * frac))
+            if rng.random() < 0.2:
+                # LP tokens parked in the pair by a plain transfer (not a withdrawal): they must not change what anyone is paid
+                parked = max(1, int(sup * rng.choice([1e-3, 0.05, 0.2])))
+                steps.append(dict(op='exec_raw', contract='lp0', sender='alice', msg={'transfer': {'recipient': '$pair0', 'amount': str(parked)}}))
+                tok = [a_['token'] for a_ in assets if 'token' in a_]
+                if tok and rng.random() < 0.5:
+                    # a cw20 ASSET of the pair sends the withdraw hook: only the LP token may
+                    steps.append(dict(op='exec_raw', contract=rng.choice(tok), sender='mallory', _foreign_withdraw_hook=True,
+                                      msg={'send': {'contract': '$pair0', 'amount': str(min(parked, 10 ** 6)), 'msg': 'eyJ3aXRoZHJhd19saXF1aWRpdHkiOnt9fQ=='}}))
             steps.append(dict(op='withdraw', pair=0, sender='alice', amount=str(amt)))
         else:
             idx = rng.randrange(2)
@@ -709,7 +729,10 @@ def gen_route_scenario(rng):
         route = []
         cur = start
         used = set()
-        for _h in range(rng.randrange(1, 5)):
+        want_cycle = rng.random() < 0.25
+        for _h in range(6 if want_cycle else rng.randrange(1, 5)):
+            if want_cycle and route and _akey(cur) == _akey(start):
+                break
             nxt = [n for n in adj.get(_akey(cur), []) if frozenset([_akey(cur), _akey(n)]) not in used]
             if not nxt:
                 break
@@ -726,7 +749,7 @@ def gen_route_scenario(rng):
         steps.append(dict(op='router_simulate', route=route, amount=str(amt), _for=len(steps) + 1))
         st = dict(op='router_swap', sender=sender, route=route, amount=str(amt), to=to, minimum_receive=None, _route=True)
         mode = rng.random()
-        st['_min_mode'] = 'none' if mode < 0.3 else ('le' if mode < 0.55 else ('eq' if mode < 0.75 else 'gt'))
+        st['_min_mode'] = 'none' if mode < 0.3 else ('le' if mode < 0.5 else ('eq' if mode < 0.68 else ('gt' if mode < 0.86 else ('paid' if mode < 0.94 else 'huge'))))
         steps.append(st)
     if rng.random() < 0.3:
         steps.append(dict(op='router_swap', sender='bob', route=[], amount='0', to=None, minimum_receive=None, _empty=True))
@@ -761,7 +784,7 @@ def finalize_route_case(case, sim_out):
             if r['ok']:
                 q = int(r['res']['amount'])
                 m = st['_min_mode']
-                st['minimum_receive'] = None if m == 'none' else str(max(0, q - 1) if m == 'le' else (q if m == 'eq' else q + 1))
+                st['minimum_receive'] = None if m == 'none' else str(max(0, q - 1) if m == 'le' else (q if m == 'eq' else (q + 1 if m == 'gt' else (q + int(st['amount']) if m == 'paid' else 2 ** 128 - 1))))
                 st['_quote'] = q
     return case
 
@@ -802,8 +825,8 @@ def check_route_scenario(case, out):
                 if delta != q:
                     v.append(('C13', 'recipient %s received %d of %s, router simulation quoted %d' % (recv, delta, lk, q), k))
                     v.append(('C12', 'router quote %d differs from the executed route %d' % (q, delta), k))
-                if m is not None and after - before < int(m) and not (recv == st['sender'] and lk == fk):
-                    v.append(('C11', 'route succeeded with minimum_receive %s but the recipient balance grew by %d' % (m, after - before), k))
+                if m is not None and delta < int(m):
+                    v.append(('C11', 'route succeeded with minimum_receive %s but the recipient balance grew by %d (net of what the recipient itself paid in that asset)' % (m, delta), k))
                 for key, val in snap['accounts'].get(router, {}).items():
                     if int(val) != int(prev['accounts'].get(router, {}).get(key, '0')):
                         v.append(('C13', 'router balance of %s changed %s -> %s: the route did not pass everything through' % (key, prev['accounts'].get(router, {}).get(key, '0'), val), k))
